@@ -143,6 +143,9 @@ std::complex<T> permanent_cpp(Matrix<std::complex<T>> &A, Vector<int> &rows, Vec
 
     // determine the concurrency of the calculation
     unsigned int n_threads = std::thread::hardware_concurrency();
+    // NOTE: `hardware_concurrency` may return 0 if the value is not computable.
+    if (n_threads == 0)
+        n_threads = 1;
     auto concurrency = static_cast<int64_t>(n_threads * 4);
     concurrency = concurrency < idx_max ? concurrency : idx_max;
 
